@@ -105,7 +105,7 @@ var initAllowStd = map[string]bool{
 	"unicode/utf8": true, "bytes": true, "strings": true, "sort": true, "math": true,
 	"syscall": false, "os": false, "time": false, "net/http": false,
 	"encoding/base64": true, "encoding/json": false, "bufio": true,
-	"github.com/google/uuid": false,
+	"github.com/google/uuid": false, "github.com/go-chi/chi": true,
 }
 
 func (e *engine) initAllowed(pkg *ssa.Package) bool {
